@@ -14,7 +14,9 @@ Operations (names are what replay files contain):
                   virtual clock ('c', timestamp=None) or as the explicit timestamp argument ('g'; '~' exists only there:
                   a float with a sub-microsecond part, like time()).  While a file is open only w<n>>c exists.
                   Clock steps are folded into the write because rolllog reads the clock nowhere else (except the
-                  constructor's refusal of files from the future, see 'ro').
+                  constructor's refusal of files from the future, see 'ro').  A fifth character 'f' / 'n' passes
+                  flush=True / flush=False to that write() (alphabets with 'wflush' only).
+  fl              (configurations with a writer that does not flush after every record) flush() on the writer
   rd, rb          read() / read_block() on the reader
   ss, se, sv      seek(('start',0)) / seek(('end',0)) / seek(position saved by the last 'tl')
   tl              tell(), remembered for 'sv'
@@ -29,7 +31,9 @@ Configurations: mode x file_size {1,4,10} x total_size {3,12,40} x reader kind {
 log, auto: rdonly autorefresh reader, manual: rdonly reader with autorefresh=False}, plus targeted searches with reduced
 alphabets (see plans()): pruning under a reader inside a multi-record file; 'txtw' = txt with 2-byte characters; 'txtl' =
 txt records containing a line-boundary character other than '\\n' (\\r, \\x0c, \\x85, U+2028, ...); a position saved in the
-newest file, that file deleted externally, file list rebuilt, seek(saved).
+newest file, that file deleted externally, file list rebuilt, seek(saved); a writer constructed with flush=False (records
+stay in the writer's buffer until flush() or the roll-over that closes the file: a file that is new on disk is empty, readers
+list it with size 0) followed by all three reader kinds.
 
 Oracle (the property statement, nothing more):
   * reader output parses into whole written records (not torn); within one positioning of the reader, delivered record
@@ -42,6 +46,8 @@ Oracle (the property statement, nothing more):
     oldest-first and never the newest, sum of sizes <= max(total_size, newest file's size).
   * seek(('end',0)) is taken as documented ("end of all logs" known to that reader): what it does with records that are
     later appended to files which already existed at the seek is not constrained.
+  * with a writer that does not flush every record, "on disk" is meant literally: a file holds exactly the records written
+    to it up to the last flush (flushing write, flush(), the close at roll-over or restart); a reader owes only those.
 
 Signatures separate root causes, so that repairing one defect leaves the others reportable and a repaired defect is
 silent:
@@ -83,7 +89,7 @@ class Violation(Exception):
 # ---- reference model ---------------------------------------------------------------------------------------------------
 
 class MFile:
-    __slots__ = ('id', 'ts', 'name', 'recs', 'content', 'gone')
+    __slots__ = ('id', 'ts', 'name', 'recs', 'content', 'gone', 'disk')
 
     def __init__(self, id, ts, name):
         self.id      = id
@@ -92,6 +98,8 @@ class MFile:
         self.recs    = []
         self.content = b''
         self.gone    = None  # None | 'pruned' | 'ext'
+        self.disk    = 0     # leading bytes of `content` that have left the writer's buffer (== len(content) whenever the
+                             # writer flushes every record, which is the default)
 
 
 class Model:
@@ -103,6 +111,7 @@ class Model:
         self.sizes    = []      # payload size of record k
         self.rec_file = []      # file id of record k
         self.rec_off  = []      # byte offset of record k in its file
+        self.rec_end  = []      # byte offset just past record k in its file
         self.open_id  = None    # file the writer appends to, None = next write opens a new one
         self.nonmono  = False   # some file got a timestamp <= that of a file created before it: False | 'known' | 'unknown'
                                 # ('unknown': only files that were already gone when the present writer object was
@@ -149,7 +158,15 @@ class Model:
         if later and self.nonmono != 'known':
             self.nonmono = 'unknown' if all(g.id in self.unknown for g in later) else 'known'
 
+    def flushed(self):
+        """The writer flushed (flush(), or close()): everything written so far is on disk."""
+
+        for f in self.files:
+            f.disk = len(f.content)
+
     def writer_restarted(self):
+        self.flushed()
+
         self.open_id = None
         self.unknown = self.unknown | {f.id for f in self.files if f.gone is not None}
 
@@ -164,7 +181,7 @@ class Model:
 
     # -- writer side
 
-    def on_write(self, n, rawb, ts, before, after, ret):
+    def on_write(self, n, rawb, ts, before, after, ret, flushed=True):
         cfg   = self.cfg
         idx   = len(self.sizes)
         total = cfg['total_size']
@@ -223,10 +240,15 @@ class Model:
 
         f.content += rawb
 
+        self.rec_end.append(len(f.content))
+
+        if flushed or len(f.content) >= cfg['file_size']:   # this write flushes, or closes the file (roll-over after the write)
+            f.disk = len(f.content)
+
         self.check_disk(after, f, 'write')
 
         size_now = sum(len(v) for v in after.values())
-        newest   = len(f.content) if f.gone is None else 0
+        newest   = f.disk if f.gone is None else 0
 
         if size_now > max(total, newest):
             raise Violation(self.ctx('over-budget'), f'after writing record {chr(65 + idx)} the files on disk total '
@@ -266,9 +288,10 @@ class Model:
                     f'{[v.id for v in vanished]} while older file{min(a.id for a in alive)} survives [{self.describe()}]')
 
         for f in self.alive():
-            if after[f.name] != f.content:
+            if after[f.name] != f.content[:f.disk]:
                 raise Violation(self.ctx('file-content'), f'after {when}: {f.name} holds {after[f.name]!r}, the model says '
-                    f'{f.content!r} [{self.describe()}]')
+                    f'{f.content[:f.disk]!r}{"" if f.disk == len(f.content) else " (+ " + repr(f.content[f.disk:]) + " not flushed)"} '
+                    f'[{self.describe()}]')
 
     def on_delete(self, name):
         for f in reversed(self.files):
@@ -305,7 +328,8 @@ class Model:
         manual = self.cfg['reader'] == 'manual'
 
         return [y for y in range(max(self.last + 1, self.floor), len(self.sizes))
-            if not self.excusable(y) and (not manual or self.rec_file[y] in self.known)]
+            if not self.excusable(y) and (not manual or self.rec_file[y] in self.known)
+            and self.rec_end[y] <= self.files[self.rec_file[y]].disk]   # still in the writer's buffer: not on disk yet
 
     def on_none(self, owed, how):
         raise Violation(self.ctx('reader-stops-early'), f'{how} returned None twice in a row while record(s) '
@@ -372,7 +396,7 @@ class Model:
             self.known = {f.id for f in self.alive()}
 
     def key(self):
-        return (tuple((f.name, f.gone, tuple(f.recs)) for f in self.files), tuple(self.sizes), self.open_id, self.nonmono, tuple(sorted(self.unknown)),
+        return (tuple((f.name, f.gone, tuple(f.recs), f.disk) for f in self.files), tuple(self.sizes), self.open_id, self.nonmono, tuple(sorted(self.unknown)),
                 self.floor, self.last, tuple(sorted(self.endfiles)), tuple(sorted(self.known)), self.saved)
 
 
@@ -397,7 +421,9 @@ class Exec:
         self.m.scanned()
 
     def open_writer(self):
-        return self.rl.RollLog(self.dir, 'txt' if self.mode in ('txtw', 'txtl') else self.mode, file_size=self.cfg['file_size'], total_size=self.cfg['total_size'], utc=True)
+        kw = {} if self.cfg.get('flush', True) else {'flush': False}   # a writer that does not flush after every record
+
+        return self.rl.RollLog(self.dir, 'txt' if self.mode in ('txtw', 'txtl') else self.mode, file_size=self.cfg['file_size'], total_size=self.cfg['total_size'], utc=True, **kw)
 
     def open_reader(self):
         return self.rl.RollLog(self.dir, 'txt' if self.mode in ('txtw', 'txtl') else self.mode, rdonly=True, autorefresh=self.cfg['reader'] == 'auto', utc=True)
@@ -422,14 +448,15 @@ class Exec:
         cfg   = self.cfg
         sizes = cfg.get('sizes', SIZES)
         vias  = cfg.get('vias', 'cg')
+        wfl   = cfg.get('wflush', ('',))   # '' = write(data, ts), 'f' / 'n' = write(data, ts, flush=True / False)
         ops   = []
 
         if m.open_id is not None:      # appending: the timestamp is not looked at
-            ops += [f'w{n}>c' for n in sizes]
+            ops += [f'w{n}>c{x}' for n in sizes for x in wfl]
         elif not m.files:              # very first file
-            ops += [f'w{n}{rel}{v}' for rel in '>~' for v in vias for n in sizes if rel in cfg.get('rels', '>=+<~') and (rel != '~' or v == 'g')]
+            ops += [f'w{n}{rel}{v}{x}' for rel in '>~' for v in vias for n in sizes for x in wfl if rel in cfg.get('rels', '>=+<~') and (rel != '~' or v == 'g')]
         else:                          # roll-over
-            ops += [f'w{n}{rel}{v}' for rel in cfg.get('rels', '>=+<~') for v in vias for n in sizes if rel != '~' or v == 'g']
+            ops += [f'w{n}{rel}{v}{x}' for rel in cfg.get('rels', '>=+<~') for v in vias for n in sizes for x in wfl if rel != '~' or v == 'g']
 
         for op in cfg.get('reads', ('rd', 'rb')):
             if op != 'rb' or self.mode != 'bin':   # in 'bin' mode read() is read_block()
@@ -444,6 +471,8 @@ class Exec:
                 continue
             if op == 'rf' and cfg['reader'] == 'self':
                 continue
+            if op == 'fl' and not (m.open_id is not None and m.files[m.open_id].disk < len(m.files[m.open_id].content)):
+                continue   # nothing in the writer's buffer: flush() changes nothing
 
             ops.append(op)
 
@@ -491,10 +520,11 @@ class Exec:
                     arg = H.secs(ts) + (0.0000005 if rel == '~' else 0)   # a float with a sub-microsecond part, like time()
 
             before    = self.snap
-            ret       = self.w.write(H.payload(self.mode, idx, n), arg)
+            flush     = {'': None, 'f': True, 'n': False}[op[4:]]
+            ret       = self.w.write(H.payload(self.mode, idx, n), arg) if flush is None else self.w.write(H.payload(self.mode, idx, n), arg, flush)
             self.snap = after = H.snapshot(self.dir)
 
-            m.on_write(n, H.raw(self.mode, idx, n), ts, before, after, ret)
+            m.on_write(n, H.raw(self.mode, idx, n), ts, before, after, ret, self.cfg.get('flush', True) if flush is None else flush)
 
         elif op == 'ra':                       # macro of reduced alphabets: read() until nothing more comes
             for _ in range(64):
@@ -545,6 +575,14 @@ class Exec:
         elif op == 'rf':
             self.r.refresh()
             m.scanned()
+
+        elif op == 'fl':
+            self.w.flush()
+            m.flushed()
+
+            self.snap = H.snapshot(self.dir)
+
+            m.check_disk(self.snap, m.files[-1] if m.files and m.files[-1].gone is None else None, 'flush()')
 
         elif op == 'ro':
             pos = self.r.tell()
@@ -685,6 +723,25 @@ def plans(tier):
             out.append(({'mode': mode, 'file_size': 1, 'total_size': 40, 'reader': reader, 'vias': 'c', 'sizes': (1,), 'rels': '>',
                          'reads': ('ra', 'rd'), 'nav': ('sv', 'tl', 'rf', 'ro'), 'dels': ('dn', 'do')}, 8 if quick else 9))
 
+    # a writer constructed with flush=False (documented constructor option "Default flush on .write()"): a record stays in the
+    # writer's buffer until flush() is called or the roll-over after a later write closes the file, so the file the first record
+    # of a roll-over created is on disk with 0 bytes and a reader's directory listing records it with size 0 ('rf', the refresh
+    # of an autorefresh reader at the end of its list, or 'ro').  w3 keeps the file open, w9 fills and closes it.
+    for mode in (('txt', 'bin') if quick else MODES):
+        for reader in READERS:
+            out.append(({'mode': mode, 'file_size': 10, 'total_size': 40, 'reader': reader, 'vias': 'c', 'sizes': (3, 9), 'rels': '>',
+                         'flush': False, 'nav': ('tl', 'sv', 'rf', 'ro', 'fl'), 'dels': ()}, 6 if quick else 7))
+
+    # the same through single writes that override the writer's default: write(..., flush=False) on a flushing writer (op suffix
+    # 'n') and write(..., flush=True) on a writer constructed with flush=False (suffix 'f'), next to writes that leave it to the
+    # default; several records per file, a budget of two files, oldest file deleted externally, read until None
+    for mode in (('txt',) if quick else MODES):
+        for reader in (('auto', 'manual') if quick else READERS):
+            for flush, wfl in ((True, ('', 'n')), (False, ('', 'f'))):
+                out.append(({'mode': mode, 'file_size': 10, 'total_size': 20, 'reader': reader, 'vias': 'c', 'sizes': (3,), 'rels': '>',
+                             'flush': flush, 'wflush': wfl, 'reads': ('ra', 'rd'), 'nav': ('rf', 'ro', 'fl'), 'dels': ('do',)},
+                            6 if quick else 8))
+
     return out
 
 
@@ -723,6 +780,11 @@ def _expand(item):
 def cfg_name(cfg):
     extra = ''.join(f'/{k}={"".join(map(str, cfg[k]))}' for k in ('vias', 'sizes', 'rels') if k in cfg)
 
+    if not cfg.get('flush', True):
+        extra += '/noflush'
+    if 'wflush' in cfg:
+        extra += '/wflush=' + ''.join(x or '-' for x in cfg['wflush'])
+
     return f'{cfg["mode"]}/fs{cfg["file_size"]}/ts{cfg["total_size"]}/{cfg["reader"]}{extra}'
 
 
@@ -760,6 +822,11 @@ def _run(rep):
         'on two consecutive polls is a violation')
     rep.assumption('violating states are not expanded; the last operation of a history is never seek-start, seek-end or an '
         'external deletion (no oracle looks at them before a further operation); in bin mode read_block is read')
+    rep.assumption('configurations named .../noflush have a writer constructed with flush=False, .../wflush=.. offer writes that '
+        'pass flush=True (f) / flush=False (n) next to writes that leave it to the default (-): records reach the disk at '
+        'flush() (op fl), at a write that flushes, and when the file is closed (roll-over, writer restart); files stay far '
+        'below the io buffer size, so nothing is flushed in between; a reader owes only records that are on disk, the budget '
+        'clause counts bytes on disk; every other configuration flushes every record (the default)')
     rep.assumption('how the timestamp reaches new_logfile (virtual clock with timestamp=None, or explicit argument) is fixed '
         'per configuration (see plans()); thorough: txt both')
 
@@ -826,7 +893,8 @@ def _run(rep):
     rep.set('worker_cpu_s', round(cpu, 1))
     rep.part('domain', modes=len(MODES), file_sizes=len(FILE_SIZES), total_sizes=len(TOTAL_SIZES), reader_kinds=len(READERS),
         write_sizes=len(SIZES), timestamp_relations=len(RELS), timestamp_delivery=2, other_operations=2 + len(NAV) + len(DELS),
-        searches=len(_PLANS), **{f'searches_to_depth_{d}': sum(1 for _, x in _PLANS if x == d) for d in sorted({x for _, x in _PLANS})})
+        searches=len(_PLANS), searches_with_unflushed_writes=sum(1 for c, _ in _PLANS if not c.get('flush', True) or 'wflush' in c),
+        **{f'searches_to_depth_{d}': sum(1 for _, x in _PLANS if x == d) for d in sorted({x for _, x in _PLANS})})
     rep.part('notes', **notes)
     rep.set('exhaustive', True)
 
